@@ -43,6 +43,43 @@ def check(run, prog, tier):
                       "(finite evaluation)", minimum=4)
     rule_E(run, prog, f, tier)
     run.extra["exhaustive"] = True
+    run.rule("C20-F", "every block helper records the block it hands out, on the distributed and on the serial path (the "
+                      "functions that collect the results read it)", minimum=6)
+    rule_F(run, prog)
+
+
+def rule_F(run, prog):
+    """The block handed out must be the block recorded: collect_block_distributed_data and its siblings take the
+    indices of this process from config.range.  Sibling agreement: in each of the three helpers every return of a
+    block is preceded, on its path, by `config.range = <that block>`."""
+    rid = "C20-F"
+    from ..loader import parents_map
+    n = 0
+    for nme in ("block_distributed_range", "block_distributed_list", "block_distributed_array"):
+        f = prog.func("quantarhei.core.parallel." + nme)
+        prog.consulted.add(f.relpath)
+        pm = parents_map(f.node)
+        for r in [x for x in walk_no_nested(f.node) if isinstance(x, ast.Return) and x.value is not None]:
+            # statements before the return in the enclosing blocks, innermost first, up to the branch on parallel_level
+            node, found = r, False
+            while node is not f.node and node is not None and not found:
+                par = pm.get(node)
+                for fld in ("body", "orelse"):
+                    b = getattr(par, fld, None)
+                    if isinstance(b, list) and node in b:
+                        for st_ in b[:b.index(node)]:
+                            if isinstance(st_, ast.Assign) and any(norm(t_) == "config.range" for t_ in st_.targets):
+                                found = True
+                if isinstance(par, ast.If) and "parallel_level" in norm(par.test):
+                    break
+                node = par
+            n += 1
+            run.obligation(rid, nme, found, key="records-block:%s" % norm(r)[:40],
+                           message="%s hands out a block (%s) without recording it in config.range on this path: the "
+                                   "collecting functions then work with the block of an earlier call" % (nme, norm(r)[:50]),
+                           loc=f.loc(r), sample={"helper": nme, "return": norm(r)[:60]})
+    if n < 6:
+        raise AnalysisError("C20-F: only %d block returns found" % n)
 
 
 def rule_D(run, prog, f, tier):
